@@ -20,8 +20,8 @@ cp /repo/Cargo.lock "$WT/" 2>/dev/null
 cd "$WT" || exit 2
 export CARGO_TARGET_DIR="$WT/target"
 res() { echo "$1" | tee -a "$LOG"; }
-if ! git apply --check "$OUT/patch.diff" 2>>"$LOG"; then res "APPLY=fail"; else res "APPLY=ok"; fi
-git apply "$OUT/patch.diff" 2>>"$LOG"
+if git apply --check "$OUT/patch.diff" 2>>"$LOG"; then res "APPLY=ok"; git apply "$OUT/patch.diff" 2>>"$LOG";
+elif git apply --3way "$OUT/patch.diff" >>"$LOG" 2>&1; then res "APPLY=ok (3-way: HEAD moved since the change was authored)"; git diff HEAD > "$OUT/patch.diff"; git reset -q; else res "APPLY=fail"; fi
 if cargo test --workspace --no-fail-fast --offline --lib >"$WT/suite.log" 2>&1; then res "SUITE_WITH_CHANGE=pass $(grep -E '^test result' "$WT/suite.log" | head -1)"; else res "SUITE_WITH_CHANGE=FAIL $(grep -E '^test result' "$WT/suite.log" | head -1)"; fi
 mkdir -p tests; cp "$OUT/demo.rs" tests/seed_demo.rs
 if timeout 900 cargo test --offline --release --features decode --test seed_demo >"$WT/demo_with.log" 2>&1; then res "DEMO_WITH_CHANGE=pass (unexpected)"; else res "DEMO_WITH_CHANGE=fail (expected) $(grep -E '^test result' "$WT/demo_with.log" | head -1)"; fi
